@@ -10,9 +10,9 @@ statement that started in state `s0` is compiled:
 
 * the gates appended since `s0` (`Lof s0 s`) target qubits that were in the scratch space of `s0` and are in
   use now; their controls are in use;
-* (`ben`) every control of every such gate is marked now or had, when the gate was applied, the value it has
-  now – the hypothesis of `bennettF` with the current state as final state.  It is kept by a new gate as long
-  as the target of the gate has not been read yet (or is marked);
+* (`ben`) every control of every such gate had, when the gate was applied, the value it has now – which gives
+  the hypothesis of `bennettF` with the current state as final state.  It is kept by a new gate because the
+  target of a gate has not been read yet: a qubit that has been read is never written again;
 * every qubit of the scratch space is zero; the qubit of a known name holds the name's value; every cache
   entry `e ↦ q` has `q` in use and holding the value of `e` (what makes a cache hit sound);
 * marked qubits are in-use ancillas that are not kept and are the target of a gate of the statement; every
@@ -93,7 +93,7 @@ structure GIh (Kn : String → Prop) (ρ : Env) (σ0 : FState) (s0 : CState) (H 
   comp : s.qc.gatesComputed.toList = s0.qc.gatesComputed.toList ++ Lof s0 s
   tgt : ∀ g ∈ Lof s0 s, Avail s0 g.target ∧ ¬ Avail s g.target
   ctl : ∀ g ∈ Lof s0 s, ∀ c ∈ g.wires.dropLast, ¬ Avail s c
-  ben : CtlOK (fun f c => c ∈ s.qc.marked ∨ f c = cur σ0 s c) (Lof s0 s) (cur σ0 s0)
+  ben : CtlOK (fun f c => f c = cur σ0 s c) (Lof s0 s) (cur σ0 s0)
   nq : s0.qc.numQubits ≤ s.qc.numQubits
   avail : ∀ q, Avail s q → Avail s0 q
   kept : s.qc.kept = s0.qc.kept
@@ -219,7 +219,7 @@ theorem gate_gi {H : Nat → Prop} {cls : GClass} {cs : List Nat} {t : Nat} {u :
     (h : (append cls (cs ++ [t])).run s = .ok (u, s')) (gi : GIh Kn ρ σ0 s0 H s)
     (hc : cls.isMCXLike = true) (hnop : cls.isNop = false)
     (hcs : ∀ c ∈ cs, ¬ Avail s c) (ht0 : Avail s0 t) (ht : ¬ Avail s t)
-    (hur : Unread s0 s t ∨ t ∈ s.qc.marked) (hnn : ∀ n, Kn n → dictGet? s.qc.qmap n ≠ some t) :
+    (hur : Unread s0 s t) (hnn : ∀ n, Kn n → dictGet? s.qc.qmap n ≠ some t) :
     GIh Kn ρ σ0 s0 (fun q => H q ∨ q = t) s' ∧ Appended cls (cs ++ [t]) s s' ∧
       (∃ g : AGate, g.wires = cs ++ [t] ∧ Lof s0 s' = Lof s0 s ++ [g]) := by
   have ha := append_run h
@@ -270,15 +270,9 @@ theorem gate_gi {H : Nat → Prop} {cls : GClass} {cs : List Nat} {t : Nat} {u :
     constructor
     · refine CtlOK.mono' _ _ ?_ gi.ben
       intro g' hg'm c hcm f hq
-      rw [ha.marked]
-      rcases hq with hq | hq
-      · exact Or.inl hq
-      · by_cases hct : c = t
-        · rcases hur with hur | hur
-          · exact absurd (hct ▸ hcm) (hur g' hg'm)
-          · exact Or.inl (hct ▸ hur)
-        · exact Or.inr (by rw [hcurne c hct]; exact hq)
-    · refine ⟨fun c hcm => Or.inr ?_, trivial⟩
+      have hct : c ≠ t := fun e => hur g' hg'm (e ▸ hcm)
+      rw [hcurne c hct]; exact hq
+    · refine ⟨fun c hcm => ?_, trivial⟩
       rw [hdl] at hcm
       have hct : c ≠ t := fun e => htcs (e ▸ hcm)
       rw [hcurne c hct, ← cur_of_gates gi.gates]
@@ -350,7 +344,7 @@ theorem GIh.of_quiet {H H' : Nat → Prop} {s s' : CState} (gi : GIh Kn ρ σ0 s
   · intro g hg' c hc'; rw [hL] at hg'
     exact fun h => gi.ctl g hg' c hc' ((hav _).mp h)
   · rw [hL, hcur]
-    exact CtlOK.mono (fun f c h => h.imp (hmk c) id) _ _ gi.ben
+    exact gi.ben
   · intro n q hkn hq'
     rw [hq] at hq'
     obtain ⟨t1, t2, t3⟩ := gi.names n q hkn hq'
@@ -548,7 +542,7 @@ theorem getFreeAncilla_gi {a : Nat} {s s' : CState}
       exact ⟨(gi.tgt g hg).1, fun h' => (gi.tgt g hg).2 (hav _ h')⟩
     · intro g hg c hc; rw [hL] at hg
       exact fun h' => gi.ctl g hg c hc (hav _ h')
-    · rw [hL, hcur, hmk]; exact gi.ben
+    · rw [hL, hcur]; exact gi.ben
     · intro n q hk hq
       obtain ⟨t1, t2, t3⟩ := gi.names n q hk (hqm n q hk hq)
       refine ⟨fun h' => t1 (hfree q h').1, fun h' => ?_, by rw [hcur]; exact t3⟩
